@@ -69,4 +69,10 @@ theorem C06_total (ns : Option (List (String × String))) (text : List Char) :
 theorem scanner_progress (s0 s' : Scan) (h : s0.nextItem = .ok s') : Lemmas.ScanProgress.Prog s0 s' :=
   Lemmas.ScanProgress.nextItem_prog s0 s' h
 
+/-- T0 (F15): what the compile entry points run *outside* `build` — whose deferred `recover` is what turns panics
+into errors — contains nothing that can panic: no indexing, slicing, unchecked type assertion, division, explicit
+panic or call out of `errors.New` / `fmt.Errorf` / `fmt.Sprintf`, in `Compile`, `CompileWithNS`, `MustCompile` and the
+package functions they call besides `build` -/
+theorem entry_points_cannot_panic_outside_recover : Generated.compileUnprotectedRisks = [] := by decide
+
 end XPathV.Theorems.C06
